@@ -317,8 +317,8 @@ def search(ctx, exe):
     finally:
         c2.cleanup()
     # RT_CATCHALL: every byte of the semaphore object is a scheduling point (unknown fields; also the waiter queue head/tail)
-    impl = core.run_sharded(["env", "RT_CATCHALL=1", exe], cases)
-    for c, line in zip(cases, impl):
+    scases, impl = core.run_search(ctx, exe, cases)   # plain schedules first, then with every byte of the object a scheduling point
+    for c, line in zip(scases, impl):
         why = core.safe_monitor(monitor, c, core.parse_trace(line) if line is not None else None, line)
         if why:
             core.report_violation(ctx, "sem+catchall", c, why, line)
